@@ -59,6 +59,8 @@ def run(ctx, rs: RuleSet, prop: str, repo: str, seed: int) -> Dict:
   details = []
   with concurrent.futures.ThreadPoolExecutor(max_workers=16) as ex:
     for case, status, msg in ex.map(st.run_case, cases):
+      if case.get('open') and status == 'FAIL':
+        status = 'OPEN'   # a known open false alarm (DESIGN.md 8b)
       outcomes[status] = outcomes.get(status, 0) + 1
       details.append({'id': case['id'], 'expect': case['expect'],
                       'status': status})
@@ -71,6 +73,7 @@ def run(ctx, rs: RuleSet, prop: str, repo: str, seed: int) -> Dict:
       'benign_twins': sum(1 for c in cases if c['expect'] == 'silent'),
       'as_expected': outcomes['PASS'],
       'mismatches': outcomes['FAIL'],
+      'open_false_alarms': outcomes.get('OPEN', 0),
       'skipped_not_applicable': outcomes['BROKEN-CASE'],
       'details': sorted(details, key=lambda d: d['id']),
   }
